@@ -1,6 +1,8 @@
 import Std.Data.HashMap
+import Std.Data.HashSet
 import TsVerif.Common.IO
 import TsVerif.C01.Judge
+import TsVerif.C01.Certify
 /-!
 Driver for C01.  Input: language tables (from `tsv-cunit_c01`), symbol names (from the harness),
 then cases (edited old tree dump, incremental tree dump, scratch tree dump, the two cursor walks,
@@ -15,12 +17,85 @@ structure LangData where
   lexModes : Array LexMode := #[]
   entries : Std.HashMap (Nat × Nat) TableEntry := {}
   kct : Nat := 0
+  tokenCount : Nat := 0
+  actions : Std.HashMap (Nat × Nat) (List String) := {}
+  gotos : Std.HashMap (Nat × Nat) Nat := {}
+  visibleSyms : Std.HashSet Nat := {}
   names : Std.HashMap Nat String := {}
 
 def LangData.toLang (d : LangData) : Lang :=
   { lexMode := fun s => d.lexModes[s]?.getD { lexState := 0, extLexState := 0, reservedSet := 0 }
     entry := fun s t => (d.entries.get? (s, t)).getD { actionCount := 0, reusable := false }
     keywordCaptureToken := d.kct }
+
+/-- One dumped action: `S<state>[e][r]`, `R<sym>.<count>.<dyn>.<prod>`, `A`, `V`.  Repetition
+shifts (`r`) are dropped: `ts_parser__advance` skips them. -/
+def parseAction (a : String) : Option LR.Action :=
+  if a == "A" then some .accept
+  else if a == "V" then some .error
+  else if a.startsWith "S" then
+    let body := (a.drop 1).toString
+    if body.endsWith "r" then none
+    else if body.endsWith "e" then some .shiftExtra
+    else some (.shift (natOf body))
+  else if a.startsWith "R" then
+    match ((a.drop 1).toString).splitOn "." with
+    | sym :: cnt :: _ => some (.reduce (natOf sym) (natOf cnt))
+    | _ => some .error
+  else some .error
+
+def LangData.toLR (d : LangData) : LRData :=
+  let acts := fun (s t : Nat) => ((d.actions.get? (s, t)).getD []).filterMap parseAction
+  { table := { action := fun s t => match acts s t with
+                 | [a] => a
+                 | _ => .error
+               goto := fun s n => (d.gotos.get? (s, n)).getD 0 }
+    ambiguous := fun s t => (acts s t).length > 1
+    visible := fun s => d.visibleSyms.contains s
+    tokenCount := d.tokenCount }
+
+mutual
+  def addrsOf (t : Tree) (acc : Std.HashSet Nat) : Std.HashSet Nat :=
+    match t with
+    | .mk d ks => addrsOfL ks (if d.addr == 0 then acc else acc.insert d.addr)
+  def addrsOfL (ks : List Tree) (acc : Std.HashSet Nat) : Std.HashSet Nat :=
+    match ks with
+    | [] => acc
+    | k :: rest => addrsOfL rest (addrsOf k acc)
+end
+
+structure CertStats where
+  ok : Nat := 0
+  stuck : Nat := 0
+  amb : Nat := 0
+  skipped : Nat := 0
+  bad : Option String := none
+
+/-- Certificates for every subtree the real incremental parse reused. -/
+def certifyCase (L : LRData) (old incr : Tree) : CertStats := Id.run do
+  let oldAddrs := addrsOf old {}
+  let toks := leavesOf L.tokenCount incr #[]
+  let (reused, _) := reusedOf L.tokenCount (fun a => oldAddrs.contains a) incr 0 #[]
+  let mut st : CertStats := {}
+  for r in reused do
+    let s := r.tree.data.parseState
+    -- subtrees with ERROR/MISSING descendants were built by error recovery: outside the machine
+    if s == 65535 || dirtyTree r.tree then
+      st := { st with skipped := st.skipped + 1 }
+      continue
+    let w := ((toks.extract r.first (r.first + r.count)).map (·.1)).toList
+    -- the extras that follow and the first real token
+    let mut u : Array Tok := #[]
+    for i in [r.first + r.count : toks.size] do
+      let (k, ex) := toks[i]!
+      u := u.push k
+      if !ex then break
+    match certifyReuse L s r.tree.data.symbol w u.toList (shapeT r.tree 0 true #[]) with
+    | .ok _ => st := { st with ok := st.ok + 1 }
+    | .stuck _ => st := { st with stuck := st.stuck + 1 }
+    | .ambiguous => st := { st with amb := st.amb + 1 }
+    | .mismatch m => st := { st with bad := st.bad <|> some m }
+  return st
 
 def LangData.symName (d : LangData) (s : Nat) : String :=
   if s == symError then "ERROR" else if s == symErrorRepeat then "_ERROR"
@@ -100,10 +175,20 @@ def runCase (s : St) : String :=
     -- after the end of the old tree's last included range (tokens that peeked the old end of input)
     let oldEnd := o.ranges.foldl (fun m r => max m r.end_byte) 0
     let beyond := rs.diffs.any (fun d => d.1 ≥ oldEnd)
-    let corr := match rs.fail with
-      | none => "ok"
-      | some m => "DIFF " ++ m
-    s!"{s.id} judge={j} corr={corr} clean={if clean then 1 else 0} gate={rs.gate} match={rs.matched} undet={rs.undet} bd={rs.bdChecked} index_skipped={rs.indexSkipped} refusals={rs.refusals} reused_inner={rs.reusedInner} reused_leaf={rs.reusedLeaf} reused_bytes={rs.reusedBytes} lexed={rs.lexed} nodes={i.root.size} rangediffs={rs.diffs.size} coldep={if rs.coldepSeen then 1 else 0} diff_beyond_old_end={if beyond then 1 else 0}"
+    let lr := ld.toLR
+    let doc := if clean then
+        match validateDocument lr 1 sc.root with
+        | .ok _ => "ok"
+        | .stuck _ => "stuck"
+        | .ambiguous => "glr"
+        | .mismatch m => "MISMATCH " ++ m
+      else "skipped"
+    let cs := certifyCase lr o.root i.root
+    let corr := match rs.fail, cs.bad with
+      | some m, _ => "DIFF " ++ m
+      | none, some m => "DIFF reuse certificate: " ++ m
+      | none, none => if doc.startsWith "MISMATCH" then "DIFF LR machine on the real table: " ++ (doc.drop 9).toString else "ok"
+    s!"{s.id} judge={j} corr={corr} clean={if clean then 1 else 0} gate={rs.gate} match={rs.matched} undet={rs.undet} bd={rs.bdChecked} index_skipped={rs.indexSkipped} refusals={rs.refusals} reused_inner={rs.reusedInner} reused_leaf={rs.reusedLeaf} reused_bytes={rs.reusedBytes} lexed={rs.lexed} nodes={i.root.size} rangediffs={rs.diffs.size} coldep={if rs.coldepSeen then 1 else 0} diff_beyond_old_end={if beyond then 1 else 0} lr_doc={(doc.splitOn " ").headD ""} cert_ok={cs.ok} cert_stuck={cs.stuck} cert_glr={cs.amb} cert_skipped={cs.skipped}"
   | none, _, _, _ => s!"{s.id} judge=BADINPUT corr=BADINPUT no tables for language {s.lang}"
   | _, _, _, _ => s!"{s.id} judge=BADINPUT corr=BADINPUT unreadable dump"
 
@@ -117,14 +202,16 @@ def step (s : St) (line : String) : IO St := do
     match line.splitOn " " with
     | ["end"] => return { s with mode := 0 }
     | ["lm", _, a, b, c] => return updLang s fun d => { d with lexModes := d.lexModes.push { lexState := natOf a, extLexState := natOf b, reservedSet := natOf c } }
-    | "te" :: st :: tok :: cnt :: reus :: _ =>
-      return updLang s fun d => { d with entries := d.entries.insert (natOf st, natOf tok) { actionCount := natOf cnt, reusable := natOf reus == 1 } }
+    | "te" :: st :: tok :: cnt :: reus :: acts =>
+      let te : TableEntry := { actionCount := natOf cnt, reusable := natOf reus == 1 }
+      return updLang s fun d => { d with entries := d.entries.insert (natOf st, natOf tok) te, actions := d.actions.insert (natOf st, natOf tok) acts }
+    | ["gt", st, nt, nx] => return updLang s fun d => { d with gotos := d.gotos.insert (natOf st, natOf nt) (natOf nx) }
     | _ => return s
   | 2 =>
     match line.splitOn " " with
     | ["end"] => return { s with mode := 0 }
-    | "sym" :: id :: _ :: _ :: _ :: _ :: nameParts =>
-      return updLang s fun d => { d with names := d.names.insert (natOf id) (" ".intercalate nameParts) }
+    | "sym" :: id :: vis :: _ :: _ :: _ :: nameParts =>
+      return updLang s fun d => { d with names := d.names.insert (natOf id) (" ".intercalate nameParts), visibleSyms := if vis == "1" then d.visibleSyms.insert (natOf id) else d.visibleSyms }
     | _ => return s
   | 3 => if line == "end" then return { s with mode := 0 } else return { s with old := s.old.push line }
   | 4 => if line == "end" then return { s with mode := 0 } else return { s with incr := s.incr.push line }
@@ -134,9 +221,9 @@ def step (s : St) (line : String) : IO St := do
   | 8 => if line == "end" then return { s with mode := 0 } else return { s with log := s.log.push line }
   | _ =>
     match line.splitOn " " with
-    | "table" :: id :: _ :: _ :: _ :: kct :: _ =>
+    | "table" :: id :: _ :: _ :: tc :: kct :: _ =>
       let s := { s with cur := id, mode := 1 }
-      return updLang s fun d => { d with kct := natOf kct, lexModes := #[], entries := {} }
+      return updLang s fun d => { d with kct := natOf kct, tokenCount := natOf tc, lexModes := #[], entries := {}, actions := {}, gotos := {} }
     | ["langdef", id] => return { s with cur := id, mode := 2 }
     | ["variant", "colfix", v] => return { s with colFix := v == "1" }
     | ["case", id] =>
